@@ -16,6 +16,7 @@ import (
 	authorizationv1 "k8s.io/api/authorization/v1"
 	apierrors "k8s.io/apimachinery/pkg/api/errors"
 	k8sruntime "k8s.io/apimachinery/pkg/runtime"
+	"k8s.io/apiserver/pkg/authentication/authenticator"
 	"k8s.io/apiserver/pkg/authentication/user"
 	"k8s.io/apiserver/pkg/authorization/authorizer"
 	"k8s.io/client-go/kubernetes"
@@ -61,6 +62,22 @@ type clusterSim struct {
 	unavailable bool
 	tokens      map[string]answer // allow = authenticated
 	sar         map[string]answer
+	gate        chan struct{} // if set, the next review blocks until it is closed (guarded by provider.mu)
+	arrived     chan struct{} // signalled when a review reached the gate
+}
+
+// wait blocks a review at the gate of the cluster, if one is set.
+func (c *clusterSim) wait(p *provider) {
+	p.mu.Lock()
+	g, a := c.gate, c.arrived
+	p.mu.Unlock()
+	if g != nil {
+		select {
+		case a <- struct{}{}:
+		default:
+		}
+		<-g
+	}
 }
 
 type provider struct {
@@ -98,6 +115,7 @@ func newClusterSim(p *provider, id string, tokens, sar map[string]answer) *clust
 		p.mu.Lock()
 		p.invoked = append(p.invoked, id)
 		p.mu.Unlock()
+		c.wait(p)
 		tr := action.(clienttesting.CreateAction).GetObject().(*authenticationv1.TokenReview).DeepCopy()
 		switch c.tokens[tr.Spec.Token] {
 		case allow:
@@ -113,6 +131,7 @@ func newClusterSim(p *provider, id string, tokens, sar map[string]answer) *clust
 		p.mu.Lock()
 		p.invoked = append(p.invoked, id)
 		p.mu.Unlock()
+		c.wait(p)
 		r := action.(clienttesting.CreateAction).GetObject().(*authorizationv1.SubjectAccessReview).DeepCopy()
 		switch c.sar[sarKey(r.Spec)] {
 		case allow:
@@ -178,7 +197,7 @@ func ctxFor(host string) context.Context {
 }
 
 func TestPropNoCrossClusterDecisions(t *testing.T) {
-	sub := stats.NewSub("request-sequences-over-hosts", "rapid: 2-3 clusters x 1-2 hosts each, per-cluster answer tables (token -> user / reject / error; (user, attributes) -> allow / deny / no opinion / error) that differ between clusters for the same key, cache TTLs in {0, 50 ms, 10 min}; a sequence of 5-40 ops: authenticate(host, token), authorize(host, user, attributes), cluster cannot be asked on/off, stop + recreate a cluster with new tables, and an alias re-homed to another cluster; oracle: every result is the answer of the host's own cluster (the user name carries the cluster id), only that cluster's API is invoked during the request, a cluster that cannot be asked yields not-authenticated / deny with an error; non-trivial = the same token / (user, attributes) was presented to >= 2 clusters with different answers while caching is on; distinct by FNV-64 of the op trace")
+	sub := stats.NewSub("request-sequences-over-hosts", "rapid: 2-3 clusters x 1-2 hosts each, per-cluster answer tables (token -> user / reject / error; (user, attributes) -> allow / deny / no opinion / error) that differ between clusters for the same key, cache TTLs in {0, 50 ms, 10 min}; a sequence of 5-40 ops: authenticate(host, token), authorize(host, user, attributes), cluster cannot be asked on/off, stop + recreate a cluster with new tables, an alias re-homed to another cluster, and the same token / (user, attributes) presented to two clusters at the same time (the first review is held at its cluster until the second request was decided); oracle: every result is the answer of the host's own cluster (the user name carries the cluster id), only that cluster's API is invoked during the request, a cluster that cannot be asked yields not-authenticated / deny with an error; non-trivial = the same token / (user, attributes) was presented to >= 2 clusters with different answers while caching is on; distinct by FNV-64 of the op trace")
 	known := findings.Open(aliasMoveFinding)
 	stats.Check(t, stats.N(1500, 10000), func(t *rapid.T) {
 		p := &provider{hosts: map[string]*clusterSim{}}
@@ -216,9 +235,87 @@ func TestPropNoCrossClusterDecisions(t *testing.T) {
 		askedSAR := map[string]map[string]string{}
 		nt := false
 		sub.Eval()
+		judgeAuthn := func(t *rapid.T, h, tok string, s *clusterSim, resp *authenticator.Response, ok bool, err error) {
+			if s.unavailable {
+				if ok || err == nil {
+					t.Fatalf("cluster %s cannot be asked but the token was decided (ok=%v err=%v)\ntrace: %s", s.id, ok, err, trace)
+				}
+				return
+			}
+			var outcome string
+			switch s.tokens[tok] {
+			case allow:
+				if !ok || err != nil || resp == nil {
+					t.Fatalf("token %s is valid in cluster %s but the result was ok=%v err=%v\ntrace: %s", tok, s.id, ok, err, trace)
+				}
+				if resp.User.GetName() != s.id+"/"+tok {
+					t.Fatalf("request for host %s (cluster %s) was authenticated as %q - a result of another cluster\ntrace: %s", h, s.id, resp.User.GetName(), trace)
+				}
+				outcome = "user"
+			case fail:
+				if ok {
+					t.Fatalf("token review of cluster %s fails but the token was authenticated as %v\ntrace: %s", s.id, resp, trace)
+				}
+				outcome = "error"
+			default:
+				if ok {
+					t.Fatalf("cluster %s rejects token %s but the request was authenticated as %q\ntrace: %s", s.id, tok, resp.User.GetName(), trace)
+				}
+				outcome = "rejected"
+			}
+			if askedToken[tok] == nil {
+				askedToken[tok] = map[string]string{}
+			}
+			askedToken[tok][s.id] = outcome
+			if okTTL > 0 || failTTL > 0 {
+				seen := map[string]bool{}
+				for id, o := range askedToken[tok] {
+					seen[o+strings.SplitN(id, ".", 2)[0]] = true
+				}
+				if len(askedToken[tok]) >= 2 {
+					nt = true
+				}
+				_ = seen
+			}
+		}
+		judgeAuthz := func(t *rapid.T, u string, a authorizer.AttributesRecord, s *clusterSim, dec authorizer.Decision, reason string, err error) {
+			if s.unavailable {
+				if dec != authorizer.DecisionDeny || err == nil {
+					t.Fatalf("cluster %s cannot be asked but the decision was %v (err=%v)\ntrace: %s", s.id, dec, err, trace)
+				}
+				return
+			}
+			want := s.sar[attrKey(u, a)]
+			switch want {
+			case allow:
+				if dec != authorizer.DecisionAllow || !strings.HasSuffix(reason, s.id) {
+					t.Fatalf("cluster %s allows %s but the decision was %v (%q, err=%v)\ntrace: %s", s.id, attrKey(u, a), dec, reason, err, trace)
+				}
+			case deny:
+				if dec != authorizer.DecisionDeny || !strings.HasSuffix(reason, s.id) {
+					t.Fatalf("cluster %s denies %s but the decision was %v (%q, err=%v)\ntrace: %s", s.id, attrKey(u, a), dec, reason, err, trace)
+				}
+			case noOpinion:
+				if dec != authorizer.DecisionNoOpinion || !strings.HasSuffix(reason, s.id) {
+					t.Fatalf("cluster %s has no opinion on %s but the decision was %v (%q, err=%v)\ntrace: %s", s.id, attrKey(u, a), dec, reason, err, trace)
+				}
+			case fail:
+				if dec != authorizer.DecisionDeny || err == nil {
+					t.Fatalf("access review of cluster %s fails but the decision was %v (err=%v)\ntrace: %s", s.id, dec, err, trace)
+				}
+			}
+			k := attrKey(u, a)
+			if askedSAR[k] == nil {
+				askedSAR[k] = map[string]string{}
+			}
+			askedSAR[k][s.id] = fmt.Sprint(want)
+			if (okTTL > 0 || failTTL > 0) && len(askedSAR[k]) >= 2 {
+				nt = true
+			}
+		}
 		steps := rapid.IntRange(5, 40).Draw(t, "steps")
 		for i := 0; i < steps; i++ {
-			switch rapid.IntRange(0, 11).Draw(t, "op") {
+			switch rapid.IntRange(0, 13).Draw(t, "op") {
 			case 0:
 				c := rapid.IntRange(0, nClusters-1).Draw(t, "cluster")
 				sims[c].unavailable = !sims[c].unavailable
@@ -275,46 +372,78 @@ func TestPropNoCrossClusterDecisions(t *testing.T) {
 						t.Fatalf("request for host %s (cluster %s) sent a token review to cluster %s\ntrace: %s", h, s.id, id, trace)
 					}
 				}
-				if s.unavailable {
-					if ok || err == nil {
-						t.Fatalf("cluster %s cannot be asked but the token was decided (ok=%v err=%v)\ntrace: %s", s.id, ok, err, trace)
-					}
+				judgeAuthn(t, h, tok, s, resp, ok, err)
+			case 12, 13:
+				// the same token / the same (user, attributes) is presented to two clusters AT THE SAME TIME: the review of
+				// the first request is held at its cluster until the second request was decided (or 150 ms passed)
+				h1 := rapid.SampledFrom(hosts).Draw(t, "host1")
+				h2 := rapid.SampledFrom(hosts).Draw(t, "host2")
+				s1, s2 := sims[owner[h1]], sims[owner[h2]]
+				if s1 == s2 || s1.unavailable || s2.unavailable {
 					continue
 				}
-				var outcome string
-				switch s.tokens[tok] {
-				case allow:
-					if !ok || err != nil || resp == nil {
-						t.Fatalf("token %s is valid in cluster %s but the result was ok=%v err=%v\ntrace: %s", tok, s.id, ok, err, trace)
-					}
-					if resp.User.GetName() != s.id+"/"+tok {
-						t.Fatalf("request for host %s (cluster %s) was authenticated as %q - a result of another cluster\ntrace: %s", h, s.id, resp.User.GetName(), trace)
-					}
-					outcome = "user"
-				case fail:
-					if ok {
-						t.Fatalf("token review of cluster %s fails but the token was authenticated as %v\ntrace: %s", s.id, resp, trace)
-					}
-					outcome = "error"
-				default:
-					if ok {
-						t.Fatalf("cluster %s rejects token %s but the request was authenticated as %q\ntrace: %s", s.id, tok, resp.User.GetName(), trace)
-					}
-					outcome = "rejected"
+				isToken := rapid.Bool().Draw(t, "tokenReview")
+				tok := rapid.SampledFrom(tokens).Draw(t, "token")
+				u := rapid.SampledFrom(users).Draw(t, "user")
+				a := sarAttrs[rapid.IntRange(0, len(sarAttrs)-1).Draw(t, "attrs")]
+				a.User = &user.DefaultInfo{Name: u}
+				type res struct {
+					resp   *authenticator.Response
+					ok     bool
+					dec    authorizer.Decision
+					reason string
+					err    error
 				}
-				if askedToken[tok] == nil {
-					askedToken[tok] = map[string]string{}
+				call := func(h string) res {
+					if isToken {
+						resp, ok, err := authn.AuthenticateToken(ctxFor(h), tok)
+						return res{resp: resp, ok: ok, err: err}
+					}
+					dec, reason, err := authz.Authorize(ctxFor(h), a)
+					return res{dec: dec, reason: reason, err: err}
 				}
-				askedToken[tok][s.id] = outcome
-				if okTTL > 0 || failTTL > 0 {
-					seen := map[string]bool{}
-					for id, o := range askedToken[tok] {
-						seen[o+strings.SplitN(id, ".", 2)[0]] = true
-					}
-					if len(askedToken[tok]) >= 2 {
-						nt = true
-					}
-					_ = seen
+				gate, arrived := make(chan struct{}), make(chan struct{}, 1)
+				p.mu.Lock()
+				s1.gate, s1.arrived = gate, arrived
+				p.mu.Unlock()
+				d1, d2 := make(chan res, 1), make(chan res, 1)
+				go func() { d1 <- call(h1) }()
+				var r1, r2 res
+				got1 := false
+				select {
+				case <-arrived: // the review of the first request is in flight
+				case r1 = <-d1: // decided from the cache of its own host
+					got1 = true
+				case <-time.After(5 * time.Second):
+				}
+				go func() { d2 <- call(h2) }()
+				got2 := false
+				select {
+				case r2 = <-d2:
+					got2 = true
+				case <-time.After(150 * time.Millisecond): // the second request waits for the first one's review
+				}
+				p.mu.Lock()
+				s1.gate, s1.arrived = nil, nil
+				p.mu.Unlock()
+				close(gate)
+				if !got1 {
+					r1 = <-d1
+				}
+				if !got2 {
+					r2 = <-d2
+				}
+				if isToken {
+					trace += fmt.Sprintf("concurrent-authn(%s|%s,%s)=%v,%v;", h1, h2, tok, r1.ok, r2.ok)
+					judgeAuthn(t, h1, tok, s1, r1.resp, r1.ok, r1.err)
+					judgeAuthn(t, h2, tok, s2, r2.resp, r2.ok, r2.err)
+				} else {
+					trace += fmt.Sprintf("concurrent-authz(%s|%s,%s)=%v,%v;", h1, h2, attrKey(u, a), r1.dec, r2.dec)
+					judgeAuthz(t, u, a, s1, r1.dec, r1.reason, r1.err)
+					judgeAuthz(t, u, a, s2, r2.dec, r2.reason, r2.err)
+				}
+				if !got1 {
+					sub.Class("second-cluster-asked-while-the-first-review-is-in-flight")
 				}
 			default:
 				h := rapid.SampledFrom(hosts).Draw(t, "host")
@@ -335,39 +464,7 @@ func TestPropNoCrossClusterDecisions(t *testing.T) {
 						t.Fatalf("request for host %s (cluster %s) sent an access review to cluster %s\ntrace: %s", h, s.id, id, trace)
 					}
 				}
-				if s.unavailable {
-					if dec != authorizer.DecisionDeny || err == nil {
-						t.Fatalf("cluster %s cannot be asked but the decision was %v (err=%v)\ntrace: %s", s.id, dec, err, trace)
-					}
-					continue
-				}
-				want := s.sar[attrKey(u, a)]
-				switch want {
-				case allow:
-					if dec != authorizer.DecisionAllow || !strings.HasSuffix(reason, s.id) {
-						t.Fatalf("cluster %s allows %s but the decision was %v (%q, err=%v)\ntrace: %s", s.id, attrKey(u, a), dec, reason, err, trace)
-					}
-				case deny:
-					if dec != authorizer.DecisionDeny || !strings.HasSuffix(reason, s.id) {
-						t.Fatalf("cluster %s denies %s but the decision was %v (%q, err=%v)\ntrace: %s", s.id, attrKey(u, a), dec, reason, err, trace)
-					}
-				case noOpinion:
-					if dec != authorizer.DecisionNoOpinion || !strings.HasSuffix(reason, s.id) {
-						t.Fatalf("cluster %s has no opinion on %s but the decision was %v (%q, err=%v)\ntrace: %s", s.id, attrKey(u, a), dec, reason, err, trace)
-					}
-				case fail:
-					if dec != authorizer.DecisionDeny || err == nil {
-						t.Fatalf("access review of cluster %s fails but the decision was %v (err=%v)\ntrace: %s", s.id, dec, err, trace)
-					}
-				}
-				k := attrKey(u, a)
-				if askedSAR[k] == nil {
-					askedSAR[k] = map[string]string{}
-				}
-				askedSAR[k][s.id] = fmt.Sprint(want)
-				if (okTTL > 0 || failTTL > 0) && len(askedSAR[k]) >= 2 {
-					nt = true
-				}
+				judgeAuthz(t, u, a, s, dec, reason, err)
 			}
 		}
 		if nt {
